@@ -126,7 +126,15 @@ func (fr *Frame) callInner(in ssa.Instruction, c *ssa.CallCommon, st *State, pc 
 	}
 	eff := vc.effectsOfCall(fr, c, callee)
 	if eff.top {
+		preTop := st.clone()
 		vc.havocAllHeaps(st)
+		// heaps the callee is known to write are havoced even when they are
+		// protected from unknown callees (private / immutable types)
+		for _, h := range eff.sorted() {
+			if vc.specs.isPrivateHeap(h) || vc.specs.isImmutableHeap(h) {
+				vc.havocHeapKeepOld(st, preTop, h, pc)
+			}
+		}
 		vc.noteOpaque(calleeName, c, "all heaps havoced ("+eff.why+")")
 	} else {
 		preSt := st.clone()
@@ -441,6 +449,11 @@ func (fr *Frame) modularCall(fc *FuncContract, callee *ssa.Function, c *ssa.Call
 		eff := vc.effectsOf(callee)
 		if eff.top {
 			vc.havocAllHeaps(st)
+			for _, h := range eff.sorted() {
+				if vc.specs.isPrivateHeap(h) || vc.specs.isImmutableHeap(h) {
+					vc.havocHeapKeepOld(st, pre, h, pc)
+				}
+			}
 		} else {
 			vc.bumpWatermark(st)
 			for _, h := range eff.sorted() {
